@@ -217,7 +217,7 @@ EXPORT int _vsnwprintf_s_chk(wchar_t *restrict dest, rsize_t dmax,
     if (unlikely(ret >= (int)dmax)) {
 #ifdef SAFECLIB_STR_NULL_SLACK
         /* oops, ret would have been written if dmax was ignored */
-        if ((rsize_t)ret > dmax) {
+        if ((rsize_t)ret >= dmax) {
             dest[dmax - 1] = L'\0';
         } else {
             memset(&dest[ret], 0, (dmax - ret) * sizeof(wchar_t));
